@@ -228,7 +228,9 @@ void thread_body(int tid) {
         unodb::this_thread().qsbr_pause();
         me.qis.back().ret = stamp();
         W->lifecycle_inflight--;
-        point(K_HARNESS, nullptr);
+        // stay paused for a while (o.b scheduling points): the others see a smaller set of registered threads meanwhile,
+        // down to a single one
+        for (int64_t k = 0; k <= o.b; k++) point(K_HARNESS, nullptr);
         check_thread_count("while paused");
         W->lifecycle_inflight++;
         unodb::this_thread().qsbr_resume();
@@ -354,7 +356,7 @@ struct QsbrEngine final : Engine {
         else if (x < 58) o.kind = Q_RETIRE;
         else if (x < 66) o.kind = Q_PUBLISH;
         else if (x < 86) o.kind = Q_QUIESCENT;
-        else o.kind = Q_PAUSE_RESUME;
+        else { o.kind = Q_PAUSE_RESUME; o.b = r.chance(0.5) ? 0 : r.range(1, 12); }
         if (t == spawner && !spawned && (i == n / 2 || r.chance(0.2))) { o.kind = Q_SPAWN; o.a = ninit; spawned = true; }
         ops.push_back(o);
       }
@@ -378,7 +380,7 @@ struct QsbrEngine final : Engine {
       case Q_DROP: return "drop references";
       case Q_RETIRE: return "unlink slot " + std::to_string(o.a) + " + on_next_epoch_deallocate";
       case Q_QUIESCENT: return "quiescent()";
-      case Q_PAUSE_RESUME: return "qsbr_pause(); qsbr_resume()";
+      case Q_PAUSE_RESUME: return "qsbr_pause(); stay paused for " + std::to_string(o.b + 1) + " scheduling points; qsbr_resume()";
       case Q_SPAWN: return "start qsbr_thread running thread #" + std::to_string(o.a + 1);
       case Q_END_PAUSED: return "qsbr_pause(); exit";
       case Q_END_EXIT: return "exit (requests pending)";
